@@ -24,8 +24,8 @@ COMP = 258
 class U:
     """untrusted-input call helper: every call must return 0/1, fire no callback, leak nothing"""
     def __init__(self, ctx, config): self.ctx = ctx; self.config = config; self.rng = ctx.rng
-    def call(self, op, *args, cls="random", nt=True, ret01=True, key=None):
-        r = self.ctx.call(op, *args, config=self.config)
+    def call(self, op, *args, cls="random", nt=True, ret01=True, key=None, ill=0):
+        r = self.ctx.call(op, *args, config=self.config, ill=ill)
         if r is None: return None
         self.ctx.ev(op, cls, nt, op, *[a for a in args if isinstance(a, (bytes, bytearray, int))][:6])
         if ret01 and r.t:
@@ -397,6 +397,41 @@ def wl_crafted_rings(u):
                     u.call("rangeproof_verify", Co.b(1), proof, None, Ho.b(1), cls="crafted:rangeproof:chain_point_infinity")
                     u.call("rangeproof_rewind", 7, 4096, pools.rbytes(rng, 32), Co.b(1), proof, None, Ho.b(1), cls="crafted:rangeproof:chain_point_infinity")
 
+def wl_dead_objects(u):
+    """objects zeroed by a refused parse / create handed to every consumer of their type.  The API treats this as illegal use (it may report
+    it through the callback and then carry on with a substitute value, e.g. pubkey_combine, ecdh), so nothing is demanded of the return
+    value beyond 0/1: the monitors are the sanitizers, the VERIFY assertions and the allocation balance"""
+    rng = u.rng; ctx = u.ctx
+    def refuse(op, *a, cls):
+        u.call(op, *a, cls="dead_object:" + cls, ill=1)
+    for it in range(ctx.n(24, 600)):
+        bad = u.call("pubkey_parse", bytes([rng.choice((2, 3))]) + b32(rng.choice((p, p + 1, 2**256 - 1, 0))), cls="setup", nt=False)
+        good = u.call("pubkey_parse", ser33(mulG(rng.randrange(1, n))), cls="setup", nt=False)
+        if bad is None or good is None or bad.ret != 0 or good.ret != 1: continue
+        Z = bad.b(1); Gd = good.b(1); msg = pools.msg32(rng); sk = b32(rng.randrange(1, n))
+        sig = u.call("sig_parse_compact", b32(rng.randrange(1, n)) + b32(rng.randrange(1, n // 2)), cls="setup", nt=False).b(1)
+        refuse("pubkey_serialize", Z, 33, COMP, cls="pubkey"); refuse("pubkey_negate", Z, cls="pubkey"); refuse("pubkey_tweak_add", Z, sk, cls="pubkey"); refuse("pubkey_tweak_mul", Z, sk, cls="pubkey")
+        refuse("pubkey_combine", Gd + Z, 2, cls="pubkey"); refuse("pubkey_combine", Z + Gd, 2, cls="pubkey"); refuse("xonly_from_pubkey", Z, 1, cls="pubkey")
+        refuse("ecdsa_verify", sig, msg, Z, cls="pubkey"); refuse("ecdh", Z, sk, 0, cls="pubkey"); refuse("ellswift_encode", Z, pools.rbytes(rng, 32), cls="pubkey")
+        a162 = adaptor.encrypt(sk, mulG(7), msg, None)
+        if a162:
+            refuse("adaptor_verify", a162, Z, msg, Gd, cls="pubkey"); refuse("adaptor_verify", a162, Gd, msg, Z, cls="enckey"); refuse("adaptor_encrypt", sk, Z, msg, 0, None, cls="enckey"); refuse("adaptor_recover", sig, a162, Z, cls="enckey")
+        refuse("musig_pubkey_agg", Gd + Z, 2, 1, 1, cls="pubkey"); refuse("musig_pubkey_agg", Z, 1, 1, 1, cls="pubkey")
+        wl = u.call("wl_parse", bytes([1]) + pools.rbytes(rng, 32) + b32(rng.randrange(1, n)), cls="setup", nt=False)
+        if wl is not None and wl.ret == 1:
+            refuse("wl_verify", wl.b(1), Z, Gd, 1, Gd, cls="online_key"); refuse("wl_verify", wl.b(1), Gd, Z, 1, Gd, cls="offline_key"); refuse("wl_verify", wl.b(1), Gd, Gd, 1, Z, cls="sub_key")
+        # zeroed keypair (refused keypair_create) and zeroed x-only key (refused parse)
+        kz = u.call("keypair_create", b32(rng.choice((0, n, 2**256 - 1))), cls="setup", nt=False)
+        if kz is not None and kz.ret == 0:
+            K0 = kz.b(1)
+            refuse("keypair_sec", K0, cls="keypair"); refuse("keypair_pub", K0, cls="keypair"); refuse("keypair_xonly_tweak_add", K0, sk, cls="keypair")
+            refuse("schnorr_sign32", msg, K0, None, cls="keypair"); refuse("schnorr_sign_custom", msg, K0, 0, None, cls="keypair")
+        xz = u.call("xonly_parse", b32(rng.choice((p, 2**256 - 1, 5))), cls="setup", nt=False)
+        if xz is not None and xz.ret == 0:
+            X0 = xz.b(1)
+            refuse("xonly_serialize", X0, cls="xonly"); refuse("xonly_tweak_add", X0, sk, cls="xonly"); refuse("xonly_tweak_add_check", b32(5), 0, X0, sk, cls="xonly")
+            refuse("schnorr_verify", pools.rbytes(rng, 64), msg, X0, cls="xonly"); refuse("halfagg_verify", X0, msg, 1, pools.rbytes(rng, 64), cls="xonly")
+
 def libfuzzer(ctx):
     """thorough tier: libFuzzer over the same entry-point families (shim/fuzzdrv.c), bounded by -runs"""
     try:
@@ -429,5 +464,5 @@ def libfuzzer(ctx):
 def run(ctx):
     for config in ctx.cfgs():
         u = U(ctx, config)
-        wl_keys_sigs(u); wl_musig(u); wl_adaptor_s2c_ell(u); wl_zkp(u); wl_surj_wl(u); wl_bppp_halfagg(u); wl_crafted(u); wl_crafted_rings(u)
+        wl_keys_sigs(u); wl_musig(u); wl_adaptor_s2c_ell(u); wl_zkp(u); wl_surj_wl(u); wl_bppp_halfagg(u); wl_crafted(u); wl_crafted_rings(u); wl_dead_objects(u)
     if not ctx.quick: libfuzzer(ctx)
